@@ -54,6 +54,19 @@ Proof.
   unfold is_video_dt. cbn [gen_jt1078_video_types existsb]. rewrite orb_false_r, orb_assoc. reflexivity.
 Qed.
 
+Lemma span_app pre d o w : len pre <= o ->
+  span (pre ++ d) (o, w) = firstn (N.to_nat w) (skipn (N.to_nat o - List.length pre) d).
+Proof.
+  intros H. unfold span, sub. cbn [fst snd]. replace (o + w - o) with w by lia.
+  rewrite skipn_app. rewrite (skipn_all2 pre) by (unfold len in H; lia). reflexivity.
+Qed.
+Lemma skipn_app_pre (pre d : list N) k : (List.length pre <= k)%nat -> skipn k (pre ++ d) = skipn (k - List.length pre) d.
+Proof. intros H. rewrite skipn_app, (skipn_all2 pre) by lia. reflexivity. Qed.
+
+Ltac norm_nat :=
+  repeat match goal with |- context [N.to_nat ?x] =>
+    let v := eval vm_compute in (N.to_nat x) in change (N.to_nat x) with v end.
+
 Theorem tables_jt1078_decode_head : forall r d, decode_head r d = gen_decode_head r d.
 Proof.
   intros r d. unfold gen_decode_head.
@@ -73,8 +86,13 @@ Proof.
   assert (Ht : forall k (l : list N), k <= len l -> take k l = Ok (firstn (N.to_nat k) l, skipn (N.to_nat k) l)).
   { intros k l H. unfold take. replace (k <=? len l) with true by lia. reflexivity. }
   assert (Hs : forall k (l : list N), len (skipn k l) = len l - N.of_nat k) by (intros; unfold len; rewrite skipn_length; lia).
+  assert (EL' : L = [n; n0; n1; n2; n3; n4; n5; n6; n7; n8; n9; n10; n11; n12; n13; n14] ++ d) by (subst L; reflexivity).
   destruct (dt =? DT_PENETRATE) eqn:Ep; destruct (is_video_dt dt) eqn:Ev;
     match goal with |- context [len L <? ?e] => destruct (len L <? e) eqn:El; [reflexivity|] end.
   all: repeat (cbn [bind]; try (rewrite Ht by (rewrite ?Hs, ?Hs; lia))).
-  all: subst L; f_equal; f_equal.
+  all: rewrite ?firstn_firstn, ?skipn_add.
+  all: unfold gen_jt1078_ts; rewrite EL'; rewrite ?span_app by (apply N.leb_le; reflexivity); norm_nat.
+  all: rewrite skipn_app_pre by (cbn [List.length]; lia).
+  all: cbn [List.length Nat.sub Nat.min Nat.add]; rewrite ?firstn_skipn_comm; cbn [Nat.add]; rewrite ?skipn_add; cbn [Nat.add].
+  all: reflexivity.
 Qed.
